@@ -75,9 +75,13 @@ func (o *Overloader) PostAccept(sess erpc.PreSession) *erpc.Status {
 		o.admitted.Store(sess, struct{}{})
 		return nil
 	}
-	msg := fmt.Sprintf("connection overload, limit=%d, now=%d",
-		o.connLimiter.getLimit(), o.connLimiter.getNow(),
-	)
+	var limit, now int32
+	o.connLimiterLock.RLock()
+	if o.connLimiter != nil {
+		limit, now = o.connLimiter.getLimit(), o.connLimiter.getNow()
+	}
+	o.connLimiterLock.RUnlock()
+	msg := fmt.Sprintf("connection overload, limit=%d, now=%d", limit, now)
 	return erpc.NewStatus(erpc.CodeInternalServerError, msg, nil)
 }
 
@@ -95,9 +99,13 @@ func (o *Overloader) PostDisconnect(sess erpc.BaseSession) *erpc.Status {
 // If overload, print error log and reply error.
 func (o *Overloader) PostReadCallHeader(ctx erpc.ReadCtx) *erpc.Status {
 	if !o.takeTotalQPS() {
-		msg := fmt.Sprintf("qps overload, total_limit=%d",
-			o.totalQPSLimiter.getLimit(),
-		)
+		var limit int32
+		o.totalQPSLimiterLock.RLock()
+		if o.totalQPSLimiter != nil {
+			limit = o.totalQPSLimiter.getLimit()
+		}
+		o.totalQPSLimiterLock.RUnlock()
+		msg := fmt.Sprintf("qps overload, total_limit=%d", limit)
 		return erpc.NewStatus(erpc.CodeInternalServerError, msg, nil)
 	}
 	limit, ok := o.takeHandlerQPS(ctx.ServiceMethod())
